@@ -2,7 +2,7 @@ import verif
 
 MANIFEST = dict(
 
-   text="Machine-checked Coq theorems, for every 64-bit input: IntegerSquareroot = floor sqrt (Newton iteration, fuel and overflow discharged); IsPowerOfTwo iff 2^k; NextPowerOfTwo = 2^log2_up (bit-smearing lemma) or 0 when unrepresentable; EpochStartSlot/TimeAtSlot return the exact value iff representable else the error; TimeToSlot is 0 before genesis and otherwise THE slot whose interval [s*SPS+g,(s+1)*SPS+g) contains t (floor, uniqueness, 64-bit bound); SlotToEpoch is floor(s/SPE) and EpochStartSlot, when it answers, is the least slot of its epoch; Slot/Epoch.Previous saturate at genesis; MinU64/MaxU64 are tied by the correspondence; CheckSlotSpan, CommitteeCount, churn, activation-exit epoch equal the spec formula; VerifyMerkleBranch = is_valid_merkle_branch for any hash function. The hand-written Impl model is tied to /repo on every run by differential execution of Go vs model (vm_compute) on the boundary set and random inputs; a Go/Spec disagreement is reported with the input.",
+   text="Machine-checked Coq theorems, for every 64-bit input: IntegerSquareroot = floor sqrt (Newton iteration, fuel and overflow discharged); IsPowerOfTwo iff 2^k; NextPowerOfTwo = 2^log2_up (bit-smearing lemma) or 0 when unrepresentable; EpochStartSlot/TimeAtSlot return the exact value iff representable else the error; TimeToSlot is 0 before genesis and otherwise THE slot whose interval [s*SPS+g,(s+1)*SPS+g) contains t (floor, uniqueness, 64-bit bound); SlotToEpoch is floor(s/SPE) and EpochStartSlot, when it answers, is the least slot of its epoch; Slot/Epoch.Previous saturate at genesis; MinU64/MaxU64 are tied by the correspondence; XorBytes32 is the byte-wise xor (length, per-byte value, range, commutative, self-inverse); the re-usable hash object of GetHashFn/Sha256Repeat is driven over message sequences against the Gallina SHA-256; CheckSlotSpan, CommitteeCount, churn, activation-exit epoch equal the spec formula; VerifyMerkleBranch = is_valid_merkle_branch for any hash function. The hand-written Impl model is tied to /repo on every run by differential execution of Go vs model (vm_compute) on the boundary set and random inputs; a Go/Spec disagreement is reported with the input.",
    note="Trusted: Coq kernel+VM, the Go harness/driver, the hand-written model (tied by execution, not translation), hash as a Section variable. No axioms (Print Assumptions: closed). Zero divisors in the config are outside the domain.",
    technique="Coq proof (induction/arith/bit lemmas) + Go-vs-model differential correspondence",
    design="4/C19")
